@@ -37,7 +37,7 @@ def gen_namespace_case(r, i):
                 store[cur][n.lower()] = v
                 stmts.append('%s = %d' % (randcase(r, n), v))
             elif k == 'read':
-                if n.lower() in store[cur]:
+                if store[cur].get(n.lower()) is not None:
                     out.append(store[cur][n.lower()])
                     stmts.append('(missionNamespace getVariable "tr") pushBack %s' % randcase(r, n))
                 else:
@@ -45,13 +45,22 @@ def gen_namespace_case(r, i):
                     stmts.append('(missionNamespace getVariable "tr") pushBack (isNil "%s")' % randcase(r, n))
             elif k == 'setvar':
                 ns = r.below(len(NS))
-                v = r.below(100)
-                store[ns][n.lower()] = v
-                stmts.append('%s setVariable ["%s", %d]' % (NS[ns], randcase(r, n), v))
+                if r.chance(1, 4):
+                    # set to nil under any spelling of the name: the variable holds nil from then on
+                    store[ns][n.lower()] = None
+                    stmts.append('%s setVariable ["%s", nil]' % (NS[ns], randcase(r, n)))
+                else:
+                    v = r.below(100)
+                    store[ns][n.lower()] = v
+                    stmts.append('%s setVariable ["%s", %d]' % (NS[ns], randcase(r, n), v))
             elif k == 'getvar':
                 ns = r.below(len(NS))
-                out.append(store[ns].get(n.lower(), -1))
-                stmts.append('(missionNamespace getVariable "tr") pushBack (%s getVariable ["%s", -1])' % (NS[ns], randcase(r, n)))
+                if n.lower() in store[ns] and store[ns][n.lower()] is None:
+                    out.append(True)
+                    stmts.append('(missionNamespace getVariable "tr") pushBack (isNil { %s getVariable ["%s", -1] })' % (NS[ns], randcase(r, n)))
+                else:
+                    out.append(store[ns].get(n.lower(), -1))
+                    stmts.append('(missionNamespace getVariable "tr") pushBack (%s getVariable ["%s", -1])' % (NS[ns], randcase(r, n)))
             elif k == 'with':
                 ns = r.below(len(NS))
                 stmts.append('with %s do { %s }' % (NS[ns], block(depth + 1, ns)))
